@@ -182,14 +182,14 @@ def dropped_value_dont_care(co: Codec, t_old, cn: Codec, val):
         for x in val:
             dropped_value_dont_care(co, tt.item, cn, x)
         return
-    if isinstance(tt, N) and not tt.args:
+    if isinstance(tt, N):
         try:
-            tgt = cn.res(cn.fq(N(tt.name)))
+            tgt = cn.res(cn.fq(N(tt.name, tt.args)))         # same name (and type arguments) in the other model, if it still exists
             if isinstance(tgt, N) and isinstance(cn.env.lookup(tgt)[0], Rec) and isinstance(co.env.lookup(tt)[0], Rec):
                 conv(co, tt, cn, tgt, val)
         except IntOverflow:
             raise OutOfRange()
-        except (CodecError, KeyError, AttributeError, TypeError):
+        except (CodecError, KeyError, AttributeError, TypeError, ValueError, IndexError):
             return
 
 
